@@ -20,7 +20,7 @@ RULE = ('corpus: every clause shape with 0..3 variables that occur only inside h
         'one call site (thorough: at every pair of call sites), all other sites keeping insertion order - the output must '
         'be byte-identical to the default-order output; (b) the whole corpus is compiled in fresh processes under '
         'PYTHONHASHSEED 0..5 (thorough 0..15) and the per-program digests must agree; the programs with non-ASCII text (string API and file API), 40 others and 6 with debug_filename on and an absolute source path also in fresh processes with other environments (C locale without UTF-8 mode, UTF-8 mode, another working directory and time zone, python -O); (c) in one process every ordered pair '
-        'of corpus programs (from a subset, incl. the same text under other options: debug_filename with different file names, the file API and the library\'s default options object, a CompilerContext instance) is compiled before the target and the target\'s output compared with its output '
+        'of corpus programs (from a subset, incl. the same text under other options: debug_filename with different file names, the file API and the library\'s default options object, CompilerContext instances created per call with the switches on / all off) is compiled before the target and the target\'s output compared with its output '
         'in a fresh state; (d) the whole corpus is compiled in one process in 3 orders (forward, reverse, interleaved: every program after every other one; every third program also with the tracing options on, forward and reverse) and every output compared with the output of a child forked from a process that has never compiled anything. states = distinct (program, output digest) pairs; transitions = compiler invocations; non-trivial '
         '= the program has >= 2 fresh variables or a choice point was explored')
 ASSUMPTIONS = ['nondeterminism that does not flow through a call of set()/frozenset() by name (set displays, id() ordering, '
@@ -132,6 +132,19 @@ def compile_or_exc(text, opts=None):
             return impl.compiler.compile_prolog_from_string(text, DCtx)
         if opts == 'string-default-options':
             return impl.compiler.compile_prolog_from_string(text)
+        if opts == 'context-instance-all-off':
+            # a NEW options object per call with every switch off (it usually lands at the address of an
+            # options object that died a moment ago)
+            o = impl.compiler.CompilerContext()
+            return impl.compiler.compile_prolog_from_string(text, o)
+        if opts == 'context-instance-generator-debug':
+            import io
+            o = impl.compiler.CompilerContext()
+            o.debug_generator = True
+            o.debug_filename = True
+            o.current_source_file = 'inst.pl'
+            o.outf = io.StringIO()
+            return impl.compiler.compile_prolog_from_string(text, o)
         if opts == 'debug-filename-context-instance':
             o = impl.compiler.CompilerContext()
             o.debug_filename = True
@@ -533,7 +546,8 @@ def run_shard(spec):
             subo += [(nm + '@a.pl', tx, 'a.pl'), (nm + '@b.pl', tx, 'b.pl')]
         for nm, tx in sub[:2]:
             subo += [(nm + '@file', tx, 'file-default-options'), (nm + '@string-default', tx, 'string-default-options'),
-                     (nm + '@ctx-instance', tx, 'debug-filename-context-instance')]
+                     (nm + '@ctx-instance', tx, 'debug-filename-context-instance'),
+                     (nm + '@ctx-instance-off', tx, 'context-instance-all-off'), (nm + '@ctx-instance-gen', tx, 'context-instance-generator-debug')]
         for tname, ttext, topts in subo:
             base = None
             for (n1, t1, o1), (n2, t2, o2) in itertools.product(subo, repeat=2):
